@@ -171,7 +171,13 @@ class FnExec(ExprMixin, CallMixin, StmtMixin):
         if is_gen:
             rpt = self.tenv.parse(c.returns)
             st.env["__yielded__"] = SV(smt.SeqEmpty(self.tenv.sort(rpt.args[0])), rpt)
-        results = self.exec_block(fn.body, st)
+        ghost_body = []
+        for src in c.prologue:
+            ghost_body += ast.parse(_dedent(src)).body
+        for g in ghost_body:
+            for n in ast.walk(g):
+                n.lineno = getattr(n, "lineno", 0) or 0
+        results = self.exec_block(ghost_body + fn.body, st)
         for st2, flow, val in results:
             if is_gen and flow in (Flow.NORMAL, Flow.RETURN):
                 rpt = self.tenv.parse(c.returns)
@@ -221,6 +227,9 @@ class FnExec(ExprMixin, CallMixin, StmtMixin):
             saved_mode = self.spec_mode
             try:
                 self.eval(h.node, st)
+            except Unsupported as e:
+                if "unknown name" not in str(e):  # a hint that mentions a local not defined on this path is skipped
+                    raise
             finally:
                 self.spec_mode = saved_mode
         for i, e in enumerate(c.ensures):
